@@ -23,7 +23,8 @@ SCHEMES = ["coap", "coaps", "coap+tcp", "coaps+tcp", "coap+ws", "coaps+ws"]
 # (text in the URI, expected Uri-Host option or None for IP literals)
 HOSTS = [("example.com", "example.com"), ("EXAMPLE.Com", "example.com"), ("127.0.0.1", None), ("[2001:db8::1]", None), ("[::1]", None),
          ("ex%41mple.com", "example.com"), ("%45xample.COM", "example.com"), ("xn--bcher-kva.example", "xn--bcher-kva.example"),
-         ("a-b.c_d.e~", "a-b.c_d.e~"), ("999.1.1.1", "999.1.1.1"), ("1.2.3", "1.2.3"), ("b%C3%BCcher.example", "b\u00fccher.example")]
+         ("a-b.c_d.e~", "a-b.c_d.e~"), ("999.1.1.1", "999.1.1.1"), ("1.2.3", "1.2.3"), ("b%C3%BCcher.example", "b\u00fccher.example"),
+         ("192.168.0.255", None), ("255.255.255.255", None), ("10.255.0.1", None), ("0.0.0.0", None), ("256.1.1.1", "256.1.1.1"), ("1.2.3.4.5", "1.2.3.4.5")]
 SEGS = ["a", "", ".", "..", "/", "?", "&", "=", "%", "#", "\u00e4", "%41", " ", "a b", "+", "\t", "\u20ac", "A", ":@", "a=b&c", "\x0b1", "~x-_."]
 
 UNRESERVED = "ABCDEFGHIJKLMNOPQRSTUVWXYZabcdefghijklmnopqrstuvwxyz0123456789-._~"
@@ -177,6 +178,35 @@ def mk_compose(mode):
     return make
 
 
+REURIS = ["coap://example.com/sensors/temp?unit=K&avg=10", "coap://other.example/", "coap://10.0.0.1/x", "coap://[2001:db8::1]:61616", "coaps://EXAMPLE.com/a/b",
+          "coap+tcp://h.example/?q", "coap://example.com", "coap://example.com/p?"]
+
+
+def mk_redecompose(reach):
+    """decomposing a URI into a message that already carries the options of another URI gives exactly the new URI's options"""
+    _setup()
+    from aiocoap.message import Message
+    from aiocoap.numbers.codes import GET
+
+    def h(i1: int, i2: int, via_copy: bool) -> None:
+        assert 0 <= i1 < len(REURIS) and 0 <= i2 < len(REURIS)
+        u1, u2 = pick(REURIS, i1), pick(REURIS, i2)
+        fresh = Message(code=GET)
+        fresh.set_request_uri(u2)
+        m = Message(code=GET, uri=u1)
+        if via_copy:
+            m = m.copy(uri=u2)
+        else:
+            m.set_request_uri(u2)
+        assert (m.opt.uri_path, m.opt.uri_query, m.opt.uri_host, m.opt.uri_port, m.opt.proxy_uri) == \
+            (fresh.opt.uri_path, fresh.opt.uri_query, fresh.opt.uri_host, fresh.opt.uri_port, fresh.opt.proxy_uri), \
+            "options left over from the previously set URI"
+        assert (m.remote.scheme, m.remote.hostinfo) == (fresh.remote.scheme, fresh.remote.hostinfo)
+        assert m.get_request_uri() == fresh.get_request_uri()
+        assert not reach, "reach"
+    return h
+
+
 MALFORMED = ["example.com/a", "//example.com/a", "/a/b", "", "coap:///a", "coap://", "coap:no-slashes", "coap://h/a#frag", "coap://h/#f", "coap://user@h/",
              "coap://user:pw@h/", "coap://:pw@h/", "coap://h:abc/", "coap://[::1]:abc/", "coap://h:99999/", "coap://h:-1/", "coap://h/%FF", "coap://h/a/%C3",
              "coap://h/?%FF", "coap://h/?a=%E4", "coap://%FFh/", "coap://[::1/", "coap://]/", "coap://[::1]x/", "coap://h:/", "coap://h/%", "coap://h/%4",
@@ -292,6 +322,8 @@ def obligations(tier):
                                         "p1q1": "path segment x query argument, index over %d each" % len(SEGS), "q2": "2 query arguments over %d" % len(SEGS),
                                         "p3": "3 path segments over %s" % SEGS_SMALL, "p2q2": "2+2 segments over 4"}[mode] if False else {"selection": mode},
                               concrete={"mode": mode}))
+    obs.append(Obligation("redecompose", mk_redecompose, 200, functions=FUNCS[:2] + ["message.Message.copy"],
+                          symbolic={"first URI / second URI": "indices over %d URIs" % len(REURIS), "through copy(uri=...)": "bool"}))
     obs.append(Obligation("malformed", mk_malformed, 200, functions=FUNCS[:1] + ["error.MalformedUrlError", "error.IncompleteUrlError"],
                           symbolic={"text": "index over %d malformed / borderline texts" % len(MALFORMED)}))
     for query in (False, True):
